@@ -72,7 +72,7 @@ func genValues(c *mc.Ctx, thorough bool) (vals []*rm.Value, class string) {
 		}
 		return []*rm.Value{s, rm.IntV(7)}, fmt.Sprintf("C/%d", i)
 	case 3: // D: boundary payload lengths per container kind, bare and under an annotation wrapper
-		lens := []int{0, 1, 13, 14, 127, 128, 16383, 16384}
+		lens := []int{0, 1, 13, 14, 127, 128, 16383, 16384, 65536, 70000}
 		li := c.Shard("len", len(lens))
 		t := []rm.Type{rm.List, rm.Sexp, rm.Struct}[c.Pick("kind", 3)]
 		n := lens[li]
@@ -160,7 +160,14 @@ func writeWith(c *mc.Ctx, mode int, vals []*rm.Value) (out []byte, calls int, fa
 		AnnotBulk: c.Dev("annot.bulk", 2) == 1,
 	}
 	if len(vals) > 1 {
-		o.FinishEach = c.Dev("finish.each", 2) == 1
+		switch c.Dev("finish.each", 3) {
+		case 1:
+			o.FinishEach = true
+		case 2:
+			o.FinishEach, o.FinishEmpty = true, true
+		}
+	} else {
+		o.FinishEmpty = c.Dev("finish.empty", 2) == 1
 	}
 	// tokens that carry, besides their text, an ID from some other table (system range, local range)
 	o.ForeignSID = []int64{0, 4, 10}[c.Dev("token.sid", 3)]
